@@ -21,10 +21,11 @@ const (
 	OpLen
 	OpFindPLimit1 // indexed path with limit
 	OpFindSince2  // scan path with since
+	OpFindMulti   // several filters in one query: replaceable address, author P, everything
 	NumCacheOps
 )
 
-var CacheOpNames = []string{"Add(v@1)", "Add(v@2)", "Add(r)", "Add(del->r)", "Add(q)", "Find[{}]", "Find[{kinds:[0]}]", "Len", "Find[{authors:[P],limit:1}]", "Find[{since:2}]"}
+var CacheOpNames = []string{"Add(v@1)", "Add(v@2)", "Add(r)", "Add(del->r)", "Add(q)", "Find[{}]", "Find[{kinds:[0]}]", "Len", "Find[{authors:[P],limit:1}]", "Find[{since:2}]", "Find[{kinds:[0]},{authors:[P]},{}]"}
 
 type cacheEvents struct {
 	v1, v2, r, del, q *mocrelay.Event
@@ -77,6 +78,8 @@ func applyCacheOp(c *mocrelay.EventCache, ce *cacheEvents, op int) string {
 		return ids(c.Find([]*mocrelay.ReqFilter{{Authors: []string{Hex('1', 64)}, Limit: I64(1)}}))
 	case OpFindSince2:
 		return ids(c.Find([]*mocrelay.ReqFilter{{Since: I64(2)}}))
+	case OpFindMulti:
+		return ids(c.Find([]*mocrelay.ReqFilter{{Kinds: []int64{0}}, {Authors: []string{Hex('1', 64)}}, {}}))
 	}
 	panic("bad op")
 }
@@ -145,7 +148,7 @@ func CacheConcurrent(h *vsched.H) {
 	}
 	// invariants on every single result
 	for _, r := range all {
-		if r.Op == OpFindAll || r.Op == OpFindSince2 {
+		if r.Op == OpFindAll || r.Op == OpFindSince2 || r.Op == OpFindMulti {
 			n := strings.Count(r.Result, " ") + 1
 			if r.Result == "[]" {
 				n = 0
